@@ -8,7 +8,7 @@ Import ListNotations.
 Local Open Scope nat_scope.
 
 Definition inj (v : F.sval) : value :=
-  match v with F.VNil => VNil | F.VBool b => VBool b | F.VInt z => VInt z end.
+  match v with F.VNil => VNil | F.VBool b => VBool b | F.VInt z => VInt z | F.VStr t => VStr t end.
 Definition lift (r : F.sval + F.serr) : outcome :=
   match r with inl v => OVal (inj v) | inr F.EType => OErr XType | inr F.EDiv0 => OErr XDiv0 end.
 
@@ -17,6 +17,9 @@ Proof. reflexivity. Qed.
 
 Lemma truthy_inj s v : truthy s (inj v) = F.struthy v.
 Proof. destruct v; reflexivity. Qed.
+
+Lemma str_cmp_same a : forall b, str_cmp a b = F.str_cmp a b.
+Proof. induction a as [|x a IH]; intros [|y b]; cbn; try reflexivity. Qed.
 
 Lemma veq_inj s a b : veq 200 s (inj a) (inj b) = F.sveq a b.
 Proof. destruct a, b; reflexivity. Qed.
@@ -36,14 +39,16 @@ Proof.
     try (change (beq [61; 61]%N [61; 61]%N) with true; cbn iota; rewrite veq_inj; reflexivity);
     try (change (beq [33; 61]%N [61; 61]%N) with false; change (beq [33; 61]%N [33; 61]%N) with true; cbn iota;
          rewrite veq_inj; reflexivity);
-    destruct a as [|x|x], b as [|y|y]; try reflexivity;
-    try (destruct x, y; reflexivity); cbn [inj F.sbin lift F.cmp_res]; destruct (x ?= y)%Z; reflexivity.
+    destruct a as [|x|x|x], b as [|y|y|y]; try reflexivity;
+    try (destruct x, y; reflexivity);
+    cbn [inj F.sbin lift F.cmp_res]; rewrite ?str_cmp_same;
+    try (destruct (x ?= y)%Z; reflexivity); try (destruct (F.str_cmp x y); reflexivity).
 Qed.
 
 Lemma binop_inj s o a b : is_cmp o = false ->
   binop s (F.op_text o) (inj a) (inj b) = (lift (F.sbin o a b), s).
 Proof.
-  intros H. destruct o; try discriminate; destruct a as [|x|x], b as [|y|y]; try reflexivity;
+  intros H. destruct o; try discriminate; destruct a as [|x|x|x], b as [|y|y|y]; try reflexivity;
     unfold binop; cbn [F.op_text inj]; cbn [F.sbin lift inj];
     try reflexivity; destruct (y =? 0)%Z eqn:E; cbn; rewrite ?E; reflexivity.
 Qed.
@@ -54,6 +59,8 @@ Proof. reflexivity. Qed.
 Lemma eval_NBool f e s b : eval (S f) e s (NBool b) = (OVal (VBool b), e, s).
 Proof. reflexivity. Qed.
 Lemma eval_NNil f e s : eval (S f) e s NNil = (OVal VNil, e, s).
+Proof. reflexivity. Qed.
+Lemma eval_NString f e s t : eval (S f) e s (NString t None) = (OVal (VStr t), e, s).
 Proof. reflexivity. Qed.
 Lemma eval_NPrefix f e s op r : eval (S f) e s (NPrefix op r) =
   match eval f e s r with
@@ -120,16 +127,17 @@ Theorem sem_scalar : forall names rho x f e s,
   eval f e s (F.embed names x) = (lift (F.sev rho x), e, s).
 Proof.
   intros names rho.
-  induction x as [z|b| |i|a IHa|a IHa|o a IHa b IHb|a IHa b IHb|a IHa b IHb|c IHc t IHt el IHe];
+  induction x as [z|b| |str|i|a IHa|a IHa|o a IHa b IHb|a IHa b IHb|a IHa b IHb|c IHc t IHt el IHe];
     intros f e s Hf Hwf Henv; cbn [F.height] in Hf; (destruct f as [|f]; [lia|]); cbn [F.embed F.sev]; cbn [F.wf] in Hwf.
   - apply eval_NInt.
   - apply eval_NBool.
   - apply eval_NNil.
+  - apply eval_NString.
   - apply Nat.ltb_lt in Hwf. destruct (nth_error rho i) as [v|] eqn:Ei; [|apply nth_error_None in Ei; lia].
     destruct (Henv i v Ei) as [Hne [l [c [Hl Hv]]]].
     rewrite (eval_NIdent f e s _ Hne), Hl, Hv. reflexivity.
   - rewrite eval_NPrefix, (IHa f e s) by (lia || assumption). change (beq [45%N] [33%N]) with false. cbn iota.
-    destruct (F.sev rho a) as [[|x|x]|[|]]; reflexivity.
+    destruct (F.sev rho a) as [[|x|x|x]|[|]]; reflexivity.
   - rewrite eval_NPrefix, (IHa f e s) by (lia || assumption). change (beq [33%N] [33%N]) with true. cbn iota.
     destruct (F.sev rho a) as [v|[|]]; cbn [lift]; [rewrite truthy_inj|..]; reflexivity.
   - apply andb_true_iff in Hwf. destruct Hwf as [Hwa Hwb].
